@@ -14,7 +14,7 @@ RULE = (
     "kernel: chi(7 letters incl. 0 and 0.999) x n_grains {1,2,3,5,8} x volume vectors (none / one / "
     "many / all below the threshold; entries exactly at, one ulp below and one ulp above chi/n; "
     "zeros; un-normalised; duplicates) x orientation-set pairs, full product, against a plain "
-    "numpy restatement; histories: BFS to depth 2 (3 thorough) over the 12 update letters, a zero and a rigid-rotation gradient, two single-solver-step updates (first_step = interval) + "
+    "numpy restatement; histories: BFS to depth 2 (3 thorough) over the 12 update letters, a zero and a rigid-rotation gradient, two single-solver-step updates (first_step = interval), one interval run backwards in time + "
     "partition letters from roots fabric(6) x regime(2) x strongly non-uniform volumes x M* in "
     "{125, 200} x chi letters x n_grains, with a recording wrapper on apply_gbs: every call got "
     "the start-of-update snapshot as reference, masked grains end the update with exactly their "
@@ -35,7 +35,7 @@ VOLK = ["uniform", "dominant", "geometric", "onezero", "allbutone", "dup", "at_t
 
 
 def ALPHABETS():
-    return {"chi": len(CHIS), "n": len(NS), "volume_vectors": len(VOLK), "update_letters": len(H.STEP_LETTERS) + len(NULL_LETTERS) + len(FS_LETTERS)}
+    return {"chi": len(CHIS), "n": len(NS), "volume_vectors": len(VOLK), "update_letters": len(H.STEP_LETTERS) + len(NULL_LETTERS) + len(FS_LETTERS) + len(BACK_LETTERS)}
 
 
 def warmup():
@@ -87,6 +87,8 @@ NULL_LETTERS = [("zero", 0.3), ("rigid", 0.3)]
 # interval: the update is one single solver step (seed C09h: the post-processing of the
 # solver's initial step skipped)
 FS_LETTERS = [("ss_xz", 1.0 / 256, "fs"), ("gen", 1.0 / 1024, "fs")]
+# an interval run backwards in time (seed C09i: post-processing skipped unless solver.t increases)
+BACK_LETTERS = [("gen", -0.4)]
 
 
 def gen_cases(tier, seed):
@@ -288,7 +290,7 @@ def run_hist(key):
         return child
 
     if key["part"] == "hist":
-        ns, nt = H.bfs(root, H.STEP_LETTERS + NULL_LETTERS + FS_LETTERS, key["depth"], step)
+        ns, nt = H.bfs(root, H.STEP_LETTERS + NULL_LETTERS + FS_LETTERS + BACK_LETTERS, key["depth"], step)
     else:
         nt = 0
         try:
